@@ -444,7 +444,9 @@ class DictArithmetic(dict):
 
         """
         if isinstance(other, dict):
-            for k, v in other.items():
+            # tuple so that ``d -= d`` (where removing the zeros changes the
+            # size of the dict being iterated) works.
+            for k, v in tuple(other.items()):
                 self[k] -= v
         else:
             self[()] -= other
